@@ -322,6 +322,11 @@ func internalUnmarshal(v *internalStruct) (any, error) {
 			}
 			return pResult.Elem().Interface(), nil
 		}
+		if v.PointerNum > 0 && string(v.JSONValue) == "null" {
+			// a nil pointer at the outermost level: null leaves the pointer nil whatever it points to. The codec is not
+			// asked — it builds a decoder for the whole type first and has none for bool- or struct-keyed maps
+			return pResult.Elem().Interface(), nil
+		}
 		err := sonic.Unmarshal(v.JSONValue, pResult.Interface())
 		if err != nil {
 			return nil, fmt.Errorf("unmarshal type[%s] fail: %v, data: %s", v.Type, err, string(v.JSONValue))
